@@ -370,8 +370,10 @@ func c16Sim(r *simcore.Run) {
 		if faulty {
 			switch s.Draw(6, "reload-fault") {
 			case 1: // torn write: truncate -> notify -> partial -> notify -> complete -> notify
-				w.torn = []int{0, s.Draw(len(w.raw), "tear-offset")}
-				w.reason = "torn"
+				// the offset is drawn as a fraction: certificate signatures (and hence file sizes) vary from run to run
+				pm := s.Draw(1000, "tear-offset-permille")
+				w.torn = []int{0, len(w.raw) * pm / 1000}
+				w.reason = fmt.Sprintf("torn at %d permille", pm)
 			case 2: // partial content at a block boundary
 				idx := bytes.Index(w.raw[1:], []byte("-----BEGIN"))
 				if idx > 0 {
@@ -475,8 +477,8 @@ func c16Sim(r *simcore.Run) {
 			for _, off := range w.torn {
 				if off >= 0 {
 					os.WriteFile(path, w.raw[:off], 0o600)
-					exposed(w.raw[:off], fmt.Sprintf("write#%d prefix %d", i, off))
-					r.Logf("write#%d exposes prefix of %d/%d bytes (%s)", i, off, len(w.raw), w.reason)
+					exposed(w.raw[:off], fmt.Sprintf("write#%d prefix", i))
+					r.Logf("write#%d exposes a prefix (%s)", i, w.reason)
 					faultCounts["fault:torn-write-exposed"]++
 				}
 				sw.fire(path, &running)
